@@ -192,6 +192,18 @@ theorem view_immutable {s s' : Ldb} {h h' : List Ver} (hr : Reach s h) (hr' : Re
   rw [(hscan' p).2]
   simp only [scanSpec, h1, h2]
 
+/-- T1 "for every cache state" (`I_cache`): `ldbManager.Get` may start from a cached pair (frontier `F` at caching
+    time, overlay folded up to `F`) and only fold the undo patches of the heights above `F`. If the chain at caching
+    time (`h`) is still the lower part of the current chain (`newer ++ h` — guaranteed because `Pop` purges the
+    caches), the result is the overlay the cache-free `Get` of the model builds; so `view_refines` and the scan
+    theorems hold for the cached path as well. -/
+theorem cached_overlay_sound {s s' : Ldb} {h newer : List Ver} (hr : Reach s h) (hr' : Reach s' (newer ++ h))
+    {v : Ver} (hv : v ∈ h) :
+    buildOverlay s'.rollbacks s.frontierId.height (s'.frontierId.height - s.frontierId.height)
+        (buildOverlay s.rollbacks v.id.height (s.frontierId.height - v.id.height) []) =
+      buildOverlay s'.rollbacks v.id.height (s'.frontierId.height - v.id.height) [] :=
+  hr.inv.inv0.cached_overlay hr'.inv.inv0 hv
+
 /-- N2 (F3b) on the manager: a key holding the empty value in a version below the frontier is answered by
     `Get`/`Has` of the view but missing from its scans -/
 theorem view_scan_drops_empty_value {s : Ldb} {h : List Ver} (hr : Reach s h) {v : Ver} (hv : v ∈ h)
